@@ -54,7 +54,7 @@ def membershipOf (e : Event) : Option Bytes :=
     | none => none
     | some .null => some []
     | some (.obj kvs) =>
-      let d := decString (lookupField kvs b!"membership")
+      let d := decString (lookupExact kvs b!"membership")
       if d.err then none else some d.val
     | some _ => none
   match m with
@@ -67,14 +67,14 @@ def memberContentOf (e : Event) : Bool × Bytes :=
   | none => (false, [])
   | some .null => (true, [])
   | some (.obj kvs) =>
-    let m := decString (lookupField kvs b!"membership")
-    let dn := decString (lookupField kvs b!"displayname")
-    let av := decString (lookupField kvs b!"avatar_url")
-    let rs := decString (lookupField kvs b!"reason")
-    let isd := decBool false (lookupField kvs b!"is_direct")
-    let tp := Auth.decodeThirdParty (lookupField kvs b!"third_party_invite")
-    let via := decString (lookupField kvs b!"join_authorised_via_users_server")
-    let mm := (Auth.decodeMxidMapping (lookupField kvs b!"mxid_mapping")).1
+    let m := decString (lookupExact kvs b!"membership")
+    let dn := decString (lookupExact kvs b!"displayname")
+    let av := decString (lookupExact kvs b!"avatar_url")
+    let rs := decString (lookupExact kvs b!"reason")
+    let isd := decBool false (lookupExact kvs b!"is_direct")
+    let tp := Auth.decodeThirdParty (lookupExact kvs b!"third_party_invite")
+    let via := decString (lookupExact kvs b!"join_authorised_via_users_server")
+    let mm := (Auth.decodeMxidMapping (lookupExact kvs b!"mxid_mapping")).1
     (!(m.err || dn.err || av.err || rs.err || isd.err || tp.err || via.err || mm.err), via.val)
   | some _ => (false, [])
 
@@ -307,10 +307,14 @@ def handle (op : String) (args : Array String) : Option String :=
       common := common, protoRoomID := unhexD protoRoom,
       protoType := if ptype == "-" then [] else strBytes ptype,
       -- the proto event's content: {"membership": <string>} | "~missing" {} | "~num" {"membership":5} | "~null" {"membership":null}
-      -- | "~notobject" (the content is the JSON text 5)
+      -- | "~notobject" (the content is the JSON text 5) | "~variant" {"Membership":"invite"} (the name under another
+      -- spelling only: no member named exactly `membership`) | "~variantafter" {"membership":"leave","memberſhip":"invite"}
+      -- | "~variantbefore" {"Membership":"leave","membership":"invite"}
       protoMembership :=
-        if membership == "~missing" || membership == "~null" then some []
+        if membership == "~missing" || membership == "~null" || membership == "~variant" then some []
         else if membership == "~num" || membership == "~notobject" then none
+        else if membership == "~variantafter" then some b!"leave"
+        else if membership == "~variantbefore" then some b!"invite"
         else some (strBytes membership),
       invitedSenderID := if sender == "err" then none else some b!"invitee-room-key",
       -- Build succeeds exactly for the pseudo-ID version (elsewhere the sender, a bare key, fails the
